@@ -136,6 +136,18 @@ def reader_rules(ctx, P):
         ok, wit = must_pass(b, rets, sw) if sw else (False, None)
         ctx.check(P + ':reader:carried-octet-examined', 'R-dom', 'cleanup_buffer examines the carried last octet of the previous window on every path (a deferred CR is settled even when the next read is empty)',
                   ok and bool(sw), function=b.path, witness=fmt_path(b, wit) if wit else None)
+        # the straddling pair is `carried CR + FIRST OCTET OF THIS READ`: the window is only looked at when this read delivered something
+        # (after an empty read `in_buffer[0]` is a stale octet of the previous window) - the step that consumes the leading LF
+        # (`start = 1`) is selected by a comparison of the read count with 0
+        skips = sorted(set(i for i, k, st in b.stmts(lambda st: not st['d']['pr'] and st['r']['k'] == 'use' and 'k' in st['r']['o'][0]
+                                                      and st['r']['o'][0]['k'].get('v') == 1 and st['r']['o'][0]['k'].get('ty') == 'usize')))
+        dom = b.dominators()
+        rg = [g for g, t in b.switches() if has_origin(b.switch_origins(g), r'param:2$') and has_origin(b.switch_origins(g), r'const:0:usize$')
+              and has_origin(b.switch_origins(g), r'op:(Gt|Ne|Eq|Lt|Ge|Le)$')]
+        sel = [x for x in skips if any(g in dom.get(x, ()) and len([j for j in set(j for j, _ in b.succ(g)) if x in b.reach_from([j], removed=frozenset([g]))]) == 1 for g in rg)]
+        ctx.check(P + ':reader:pair-needs-a-nonempty-read', 'R-dom', 'cleanup_buffer treats `carried CR, first octet` as a CR LF pair only when the read delivered at least one octet',
+                  bool(skips) and len(sel) == len(skips), function=b.path, site=site(b, skips[0]) if skips else None,
+                  missing=None if (skips and len(sel) == len(skips)) else 'the leading-LF skip is not selected by a test of the read count: after an empty read a stale LF in the window turns the carried CR into CR LF')
         # deferral: `end = read - 1` only under (window full && last octet == CR)
         subs = [i for i, k, s_ in b.stmts(lambda s: s['r']['k'] == 'bin' and s['r']['op'].startswith('Sub') and any('k' in o and o['k'].get('v') == 1 for o in s['r']['o'][1:]))
                 if has_origin(b.operand_origins(b.blocks[i]['s'][k]['r']['o'][0]), r'param:2$')]
